@@ -336,7 +336,7 @@ func main() {
 		if bad != "" {
 			prevRegs = nil
 		}
-		idx := c.Add("read_txt", fmt.Sprintf("CRead %d %s %s %s", ilen, gal.List(ov), gal.List(obs), gal.List(errObs(rerr))),
+		idx := c.Add("read_txt", fmt.Sprintf("CRead %d %s %s %s", ilen, gal.List(ov), gal.List(obs), gal.List(errObs(rerr, ilen))),
 			map[string]interface{}{"image": sp.why, "length": ilen, "fill_class": sp.class, "seed_index": i}, len(ov) > 0)
 		if ilen < txtAreaEnd() {
 			c.Count("read_txt_short_image")
@@ -346,7 +346,7 @@ func main() {
 		c.Count(fmt.Sprintf("read_txt_fill_class:%d", sp.class))
 		c.Count(fmt.Sprintf("read_txt_registers_returned:%02d", len(regs)))
 		neof, nunexp := 0, 0
-		for _, e := range errObs(rerr) {
+		for _, e := range errObs(rerr, ilen) {
 			switch {
 			case strings.HasSuffix(e, ", 0)"):
 				neof++
